@@ -348,7 +348,9 @@ def report(ctx: click.Context, tjp_file: Optional[str], output_csv: bool, output
         if verbose:
             logger.debug("Running ScriptPlan report generator")
 
-        success, error_msg = run_scriptplan(str(temp_file), str(temp_output_dir))
+        # Only the auto-generated report is needed. Reports defined in the project file are
+        # not generated: their names are file names and may point outside the temp directory.
+        success, error_msg = run_scriptplan(str(temp_file), str(temp_output_dir), [auto_report_id])
 
         if not success:
             raise ReportGenerationError(error_msg or "Report generation failed")
